@@ -2,10 +2,12 @@ package props
 
 import (
 	"bytes"
+	"encoding/binary"
 	"encoding/json"
 	"fmt"
 	"math"
 	"strconv"
+	"sync"
 	"time"
 
 	"github.com/tormoder/fit"
@@ -31,6 +33,7 @@ func init() {
 			"distinct = distinct outcome classes (type, validity, round-trip delta, sign, printed-error bucket)",
 		Assumptions: []string{"±90° is taken as legal for latitude (the statement says invalid when *outside* ±90°); the +90° case is the listed finding K5"},
 		Run:         runC17,
+		Sub:         func(args []string) { tzSub(args) },
 		QuickBudget: 400, ThoroughBudget: 3000,
 		Replay: func(raw json.RawMessage) (string, error) {
 			var r c17Replay
@@ -49,6 +52,31 @@ func init() {
 			case "time":
 				if msg := checkTime(uint32(r.Value)); msg != "" {
 					return "", fmt.Errorf("%s", msg)
+				}
+			case "concurrent":
+				return "sampled concurrent pass: re-run ./check C17 quick", nil
+			case "decoded-narrow":
+				// the value as a 2-byte (and, if it fits, 1-byte) coordinate in both byte orders
+				for _, width := range []int{2, 1} {
+					if width == 1 && r.Value > 255 {
+						continue
+					}
+					for _, big := range []bool{false, true} {
+						d := fitmodel.Def{Local: 1, Big: big, Global: 20, Fields: []fitmodel.FieldDef{{Num: 0, Size: byte(width), Base: []byte{0, fitmodel.Sint8, fitmodel.Sint16}[width]}}}
+						stream := fitmodel.File(fitmodel.DefaultHeader, append(fitmodel.FileIdRecords(0, 4), d.Bytes(), fitmodel.Data(1, fitmodel.PutUint(d.Order(), width, uint64(r.Value))))...)
+						res := safeDecode(bytes.NewReader(stream))
+						a, _ := res.File.Activity()
+						if res.Err != nil || a == nil || len(a.Records) != 1 {
+							return "", fmt.Errorf("decode fails: %v %s", res.Err, res.Panic)
+						}
+						want := int32(int16(r.Value))
+						if width == 1 {
+							want = int32(int8(r.Value))
+						}
+						if r.Value != int64(1)<<(8*width-1)-1 && a.Records[0].PositionLat != fit.NewLatitude(want) {
+							return "", fmt.Errorf("position_lat transmitted as %d-byte value %d (big-endian=%v) decodes to semicircles %d", width, want, big, a.Records[0].PositionLat.Semicircles())
+						}
+					}
 				}
 			case "decoded":
 				for _, big := range []bool{false, true} {
@@ -200,6 +228,8 @@ func absI64(a int64) int64 {
 func runC17(w *vx.W) {
 	thorough := !w.Quick()
 	c17Decoded(w)
+	tzFamily(w, "C17")
+	c17Concurrent(w)
 	// printed-form selection in the quick tier
 	near := func(s int64) bool {
 		for _, c := range []int64{0, 1 << 30, -(1 << 30), 1<<31 - 1, -(1 << 31), sentinel} {
@@ -348,6 +378,57 @@ func c17Decoded(w *vx.W) {
 			}
 		}
 	}
+	// coordinates transmitted narrower than 32 bits: every sint16 and sint8 value, both byte orders; the coordinate is
+	// the sign-extended value (the narrow types' own invalid sentinels carry no demand)
+	for wi, width := range []int{2, 1} {
+		for o := 0; o < 2; o++ {
+			if !w.Mine(int64(1000 + wi*2 + o)) {
+				continue
+			}
+			big := o == 1
+			base := byte(fitmodel.Sint16)
+			n := 1 << 16
+			if width == 1 {
+				base, n = fitmodel.Sint8, 1<<8
+			}
+			d := fitmodel.Def{Local: 1, Big: big, Global: 20, Fields: []fitmodel.FieldDef{{Num: 0, Size: byte(width), Base: base}, {Num: 3, Size: 1, Base: fitmodel.Uint8}, {Num: 1, Size: byte(width), Base: base}}}
+			recs := append(fitmodel.FileIdRecords(0, 4), d.Bytes())
+			ord := d.Order()
+			for v := 0; v < n; v++ {
+				recs = append(recs, fitmodel.Data(1, fitmodel.Concat(fitmodel.PutUint(ord, width, uint64(v)), []byte{77}, fitmodel.PutUint(ord, width, uint64(n-1-v)))))
+			}
+			res := safeDecode(bytes.NewReader(fitmodel.File(fitmodel.DefaultHeader, recs...)))
+			w.Eval(int64(2 * n))
+			w.Fam("decoded-narrow-coordinates", int64(2*n))
+			a, _ := res.File.Activity()
+			if res.Err != nil || res.Panic != "" || a == nil || len(a.Records) != n {
+				w.Violation("decoded/decode-fails", fmt.Sprintf("Decode of records with %d-byte coordinates fails: err=%v panic=%s", width, res.Err, res.Panic), c17Replay{"decoded-narrow", 0})
+				continue
+			}
+			ext := func(v int) int32 {
+				if width == 1 {
+					return int32(int8(v))
+				}
+				return int32(int16(v))
+			}
+			sentinel := n/2 - 1
+			for v := 0; v < n; v++ {
+				r := a.Records[v]
+				if v != sentinel {
+					if wl := fit.NewLatitude(ext(v)); r.PositionLat != wl {
+						w.Violation("decoded/narrow-lat", fmt.Sprintf("position_lat transmitted as %d-byte signed value %d (big-endian=%v) decodes to {semicircles %d invalid %v}, expected semicircles %d", width, ext(v), big, r.PositionLat.Semicircles(), r.PositionLat.Invalid(), wl.Semicircles()), c17Replay{"decoded-narrow", int64(v)})
+						break
+					}
+				}
+				if u := n - 1 - v; u != sentinel {
+					if wg := fit.NewLongitude(ext(u)); r.PositionLong != wg {
+						w.Violation("decoded/narrow-lng", fmt.Sprintf("position_long transmitted as %d-byte signed value %d (big-endian=%v) decodes to {semicircles %d invalid %v}, expected semicircles %d", width, ext(u), big, r.PositionLong.Semicircles(), r.PositionLong.Invalid(), wg.Semicircles()), c17Replay{"decoded-narrow", int64(u)})
+						break
+					}
+				}
+			}
+		}
+	}
 	const per = 2048
 	nfiles := (len(vals) + per - 1) / per
 	for fi := 0; fi < nfiles; fi++ {
@@ -441,4 +522,62 @@ func c17DecodedOne(v uint32, big bool) string {
 		return fmt.Sprintf("timestamp %d (big-endian=%v) decodes to %v, the conversion gives %v", v, big, r.Timestamp, wt)
 	}
 	return ""
+}
+
+// c17Concurrent: a free-running (sampled, not exhaustive) pass: eight goroutines encode and decode Files whose
+// timestamps and coordinates differ per goroutine; every result must equal the one computed alone beforehand.
+// Conversions that go through shared scratch state show here; the exhaustive schedule exploration is C09's.
+func c17Concurrent(w *vx.W) {
+	if w.Shard != 0 {
+		return
+	}
+	mk := func(g int) *fit.File {
+		f, _ := fit.NewFile(fit.FileTypeActivity, fit.NewHeader(fit.V20, true))
+		a, _ := f.Activity()
+		for i := 0; i < 40; i++ {
+			r := fit.NewRecordMsg()
+			r.Timestamp = time.Unix(fitmodel.FitEpoch+int64(100000000*(g+1)+i), 0).UTC()
+			r.PositionLat = fit.NewLatitude(int32(g*1000000 + i))
+			r.PositionLong = fit.NewLongitude(int32(-g*2000000 - i))
+			a.Records = append(a.Records, r)
+		}
+		return f
+	}
+	const G = 8
+	want := make([]string, G)
+	for g := 0; g < G; g++ {
+		var buf bytes.Buffer
+		if err := fit.Encode(&buf, mk(g), binary.LittleEndian); err != nil {
+			return
+		}
+		want[g] = vx.Hex(buf.Bytes()) + "|" + dumpFile(safeDecode(bytes.NewReader(buf.Bytes())).File)
+	}
+	bad := make([]string, G)
+	var wg sync.WaitGroup
+	for g := 0; g < G; g++ {
+		wg.Add(1)
+		go func(g int) {
+			defer wg.Done()
+			for round := 0; round < 150 && bad[g] == ""; round++ {
+				var buf bytes.Buffer
+				if err := fit.Encode(&buf, mk(g), binary.LittleEndian); err != nil {
+					bad[g] = err.Error()
+					return
+				}
+				got := vx.Hex(buf.Bytes()) + "|" + dumpFile(safeDecode(bytes.NewReader(buf.Bytes())).File)
+				if got != want[g] {
+					bad[g] = fmt.Sprintf("round %d: %s", round, diffAt(got, want[g]))
+				}
+			}
+		}(g)
+	}
+	wg.Wait()
+	w.Eval(G * 150)
+	w.Fam("concurrent-encode-decode-sampled", G*150)
+	for g, b := range bad {
+		if b != "" {
+			w.Violation("concurrent-conversion", fmt.Sprintf("goroutine %d, encoding and decoding its own File next to 7 others, gets another result than alone: %s", g, b), c17Replay{"concurrent", int64(g)})
+			break
+		}
+	}
 }
